@@ -4,7 +4,7 @@ sys.path.insert(0, os.path.join(os.path.dirname(os.path.abspath(__file__)), '..'
 from vlib import *
 
 K = dict(NONE=0, VOID=1, INT=2, FLOAT=3, BOOL=4, U8=5, ENUM=6, STR=10, ARR_INT=11, ARR_STR=12, STRUCT=13, UNION=14,
-         TUPLE=15, CLOSURE=16, HASHMAP=17, ALIAS0=20)
+         TUPLE=15, CLOSURE=16, HASHMAP=17, HASHMAP_S=18, ALIAS0=20)
 VM_SOURCES = ['src/nanovm/vm.c', 'src/nanovm/heap.c', 'src/nanovm/value.c', 'src/nanoisa/isa.c', 'src/nanoisa/nvm_format.c']
 VM_REPLAY_SOURCES = VM_SOURCES   # linked with --unresolved-symbols=ignore-all: FFI / builtins are not reachable from one core instruction
 
@@ -18,7 +18,7 @@ def opcodes():
     return _ops
 
 def vm_job(prefix, op, slots=(), l0='NONE', g0='NONE', post=0, audit=False, strict_leak=False, extra=None, alen=2, acap=4,
-           timeout=300, overflow=False, group='vm_step', unwind=12, desc=None):
+           timeout=300, overflow=False, group='vm_step', unwind=18, desc=None):
     """slots: kinds of S0..S2 (bottom..top), names from K or 'ALIAS<n>' (n = slot index 0..4: L0,G0,S0,S1,S2)."""
     def kk(n):
         return K['ALIAS0'] + int(n[5:]) if n.startswith('ALIAS') and n != 'ALIAS0' or n == 'ALIAS0' else K[n]
@@ -36,16 +36,123 @@ def vm_job(prefix, op, slots=(), l0='NONE', g0='NONE', post=0, audit=False, stri
     kinds = set(list(slots) + [l0, g0])
     has = lambda *ks: any(k in kinds for k in ks)
     # release loops of container kinds that do not exist in this pre-state get bound 1 (unwinding ASSERTION: reported if ever reachable)
-    uw = ['isa_decode.0:5', 'vm_release:%d' % (2 if has('ARR_STR', 'STRUCT', 'UNION', 'TUPLE', 'CLOSURE', 'HASHMAP') or (extra or {}).get('NEWCONTAINER') else 1 if not has('ARR_INT') else 2),
-          'release_hashmap.0:%d' % (4 if has('HASHMAP') else 1), 'release_hashmap.1:%d' % (3 if has('HASHMAP') else 1),
+    uw = ['isa_decode.0:5', 'vm_release:%d' % (2 if has('ARR_STR', 'STRUCT', 'UNION', 'TUPLE', 'CLOSURE', 'HASHMAP', 'HASHMAP_S') or (extra or {}).get('NEWCONTAINER') else 1 if not has('ARR_INT') else 2),
+          'release_hashmap.0:%d' % (6 if has('HASHMAP', 'HASHMAP_S') else 1), 'release_hashmap.1:%d' % (4 if has('HASHMAP', 'HASHMAP_S') else 1),
           'release_array.0:%d' % ((acap + 2) if has('ARR_INT', 'ARR_STR') or (extra or {}).get('NEWCONTAINER') else 1),
           'release_struct.0:%d' % (4 if has('STRUCT') or (extra or {}).get('NEWCONTAINER') else 1), 'release_struct.1:%d' % (4 if has('STRUCT') else 1),
           'release_union.0:%d' % (4 if has('UNION') or (extra or {}).get('NEWCONTAINER') else 1), 'release_tuple.0:%d' % (4 if has('TUPLE') or (extra or {}).get('NEWCONTAINER') else 1),
           'release_closure.0:%d' % (3 if has('CLOSURE') or (extra or {}).get('NEWCONTAINER') else 1)]
     j = Job(name=name, harness='vm_step.c', sources=VM_SOURCES, defines=d, src_defines=sd, unwind=unwind,
+            src_flags={'src/nanoisa/isa.c': ['-include', os.path.join(VERIF, 'stubs', 'isa_memset.h')]},
             unwindset=uw, overflow=overflow, timeout=timeout, group=group, must_witness=['step done'],
-            replay_sources=VM_REPLAY_SOURCES, replay_libs=['-Wl,--unresolved-symbols=ignore-all'],
+            replay_sources=VM_REPLAY_SOURCES, replay_libs=[os.path.join(VERIF, 'stubs', 'vm_link_stubs.c')],
             desc=desc or {'opcode': op, 'operand_slots(bottom..top)': list(slots), 'local0': l0, 'global0': g0,
                           'array_len': alen, 'symbolic': 'all immediates, ints, float bits, string bytes, indices, hidden reference counts 0..2',
                           'audit': bool(audit)})
     return j
+
+
+def imm(*bytes_):
+    return {'IMM_FIX%d' % i: b for i, b in enumerate(bytes_) if b is not None}
+
+# opcode -> list of (operand slot kinds bottom..top, extra defines, local0 kind, global0 kind)
+def step_table(tier):
+    T = []
+    def add(op, slots=(), extra=None, l0='NONE', g0='NONE'):
+        T.append((op, tuple(slots), dict(extra or {}), l0, g0))
+    heapk = ['STR', 'ARR_INT', 'ARR_STR', 'STRUCT', 'UNION', 'TUPLE', 'CLOSURE', 'HASHMAP']
+    scal = ['INT', 'FLOAT', 'BOOL', 'VOID']
+    for op in ('OP_NOP', 'OP_PUSH_I64', 'OP_PUSH_F64', 'OP_PUSH_BOOL', 'OP_PUSH_VOID', 'OP_PUSH_U8', 'OP_DEBUG_LINE', 'OP_HALT',
+               'OP_GC_SCOPE_ENTER', 'OP_GC_SCOPE_EXIT', 'OP_OPAQUE_NULL'):
+        add(op)
+    add('OP_PUSH_STR', extra=imm(None, 0, 0, 0))
+    for k in heapk + ['INT']:
+        add('OP_DUP', [k]); add('OP_POP', [k])
+        add('OP_LOAD_LOCAL', [], imm(0, 0), l0=k); add('OP_STORE_LOCAL', [k], imm(0, 0), l0='STR')
+        add('OP_LOAD_GLOBAL', [], imm(0, 0, 0, 0), g0=k); add('OP_STORE_GLOBAL', [k], imm(0, 0, 0, 0), g0='ARR_STR')
+    add('OP_DUP'); add('OP_POP'); add('OP_SWAP'); add('OP_ROT3')
+    add('OP_SWAP', ['STR', 'ARR_STR']); add('OP_ROT3', ['STR', 'INT', 'STRUCT'])
+    add('OP_LOAD_LOCAL', [], None, l0='STR'); add('OP_STORE_LOCAL', ['STR'], None, l0='ARR_STR')      # symbolic slot index
+    add('OP_LOAD_GLOBAL', [], None, g0='STR'); add('OP_STORE_GLOBAL', ['STR'], None, g0='STR')        # symbolic global index
+    add('OP_STORE_LOCAL', ['ALIAS0'], imm(0, 0), l0='STR')                                             # store a value into the slot that already holds it
+    add('OP_LOAD_UPVALUE', [], {'FRAME_CLOSURE': None}, g0='CLOSURE'); add('OP_STORE_UPVALUE', ['STR'], {'FRAME_CLOSURE': None}, g0='CLOSURE')
+    add('OP_LOAD_UPVALUE'); add('OP_STORE_UPVALUE', ['STR'])
+    arith = ('OP_ADD', 'OP_SUB', 'OP_MUL', 'OP_DIV', 'OP_MOD')
+    for op in arith:
+        for pair in (('INT', 'INT'), ('FLOAT', 'FLOAT'), ('INT', 'FLOAT'), ('ENUM', 'INT'), ('STR', 'INT'), ('ARR_INT', 'INT'), ('ARR_INT', 'ARR_INT'), ('VOID', 'VOID')):
+            add(op, pair)
+        add(op)
+    add('OP_ADD', ['STR', 'STR']); add('OP_ADD', ['STR', 'ALIAS2']); add('OP_ADD', ['ARR_STR', 'STR']); add('OP_ADD', ['ARR_STR', 'ARR_STR'])
+    for k in ('INT', 'FLOAT', 'STR', 'VOID'): add('OP_NEG', [k])
+    for op in ('OP_EQ', 'OP_NE', 'OP_LT', 'OP_LE', 'OP_GT', 'OP_GE'):
+        for pair in (('INT', 'INT'), ('FLOAT', 'FLOAT'), ('STR', 'STR'), ('BOOL', 'BOOL'), ('STR', 'INT'), ('ARR_INT', 'ARR_INT'), ('STRUCT', 'STRUCT'), ('STR', 'ALIAS2')):
+            add(op, pair)
+    for op in ('OP_AND', 'OP_OR'):
+        for pair in (('BOOL', 'BOOL'), ('STR', 'BOOL'), ('INT', 'ARR_STR')): add(op, pair)
+    for k in ('BOOL', 'STR', 'INT', 'VOID'): add('OP_NOT', [k])
+    add('OP_JMP')
+    for k in ('BOOL', 'INT', 'STR', 'VOID'): add('OP_JMP_TRUE', [k]); add('OP_JMP_FALSE', [k])
+    add('OP_CALL', ['STR'], imm(1, 0, 0, 0)); add('OP_CALL', [], imm(1, 0, 0, 0)); add('OP_CALL', ['INT'], None)
+    add('OP_CALL_INDIRECT', ['STR', 'CLOSURE']); add('OP_CALL_INDIRECT', ['CLOSURE']); add('OP_CALL_INDIRECT', ['INT']); add('OP_CALL_INDIRECT')
+    add('OP_RET', ['STR'], {'FRAMES': 2}, l0='ARR_STR'); add('OP_RET', [], {'FRAMES': 2}, l0='STR'); add('OP_RET', ['INT']); add('OP_RET', ['ARR_STR'], l0='STR')
+    add('OP_CLOSURE_NEW', ['STR'], dict(imm(1, 0, 0, 0, 1, 0), NEWCONTAINER=1)); add('OP_CLOSURE_NEW', [], dict(imm(1, 0, 0, 0, 0, 0), NEWCONTAINER=1))
+    add('OP_CLOSURE_CALL', ['STR', 'CLOSURE']); add('OP_CLOSURE_CALL', ['INT'])
+    add('OP_CALL_EXTERN'); add('OP_CALL_MODULE', ['INT'])
+    add('OP_STR_LEN', ['STR']); add('OP_STR_LEN', ['INT']); add('OP_STR_CONCAT', ['STR', 'STR']); add('OP_STR_CONCAT', ['STR', 'INT'])
+    add('OP_STR_SUBSTR', ['STR', 'INT', 'INT']); add('OP_STR_CONTAINS', ['STR', 'STR']); add('OP_STR_EQ', ['STR', 'STR']); add('OP_STR_EQ', ['STR', 'ALIAS2'])
+    add('OP_STR_CHAR_AT', ['STR', 'INT']); add('OP_STR_FROM_INT', ['INT']); add('OP_STR_FROM_INT', ['STR']); add('OP_STR_FROM_FLOAT', ['FLOAT'])
+    add('OP_ARR_NEW', [], {'NEWCONTAINER': 1}); add('OP_ARR_PUSH', ['ARR_STR', 'STR']); add('OP_ARR_PUSH', ['ARR_INT', 'INT']); add('OP_ARR_PUSH', ['INT', 'STR'])
+    add('OP_ARR_POP', ['ARR_STR']); add('OP_ARR_POP', ['INT']); add('OP_ARR_GET', ['ARR_STR', 'INT']); add('OP_ARR_GET', ['ARR_INT', 'INT']); add('OP_ARR_GET', ['STR', 'INT'])
+    add('OP_ARR_SET', ['ARR_STR', 'INT', 'STR']); add('OP_ARR_SET', ['ARR_INT', 'INT', 'INT']); add('OP_ARR_SET', ['INT', 'INT', 'STR'])
+    add('OP_ARR_LEN', ['ARR_STR']); add('OP_ARR_LEN', ['STR']); add('OP_ARR_SLICE', ['ARR_STR', 'INT', 'INT']); add('OP_ARR_SLICE', ['ARR_INT', 'INT', 'INT'])
+    add('OP_ARR_REMOVE', ['ARR_STR', 'INT']); add('OP_ARR_REMOVE', ['ARR_INT', 'INT'])
+    add('OP_ARR_LITERAL', ['STR', 'STR'], dict(imm(None, 2, 0), NEWCONTAINER=1)); add('OP_ARR_LITERAL', [], dict(imm(None, 0, 0), NEWCONTAINER=1)); add('OP_ARR_LITERAL', ['STR'], dict(imm(None, 2, 0), NEWCONTAINER=1))
+    add('OP_STRUCT_NEW', [], {'NEWCONTAINER': 1}); add('OP_STRUCT_GET', ['STRUCT'], imm(1, 0)); add('OP_STRUCT_GET', ['STRUCT'], imm(0, 0)); add('OP_STRUCT_GET', ['STRUCT'], imm(2, 0)); add('OP_STRUCT_GET', ['STR'])
+    add('OP_STRUCT_SET', ['STRUCT', 'STR'], imm(1, 0)); add('OP_STRUCT_SET', ['STRUCT', 'STR'], imm(0, 0)); add('OP_STRUCT_SET', ['STRUCT', 'STR'], imm(5, 0)); add('OP_STRUCT_SET', ['INT', 'STR'])
+    add('OP_STRUCT_LITERAL', ['STR', 'INT'], dict(imm(None, None, None, None, 2, 0), NEWCONTAINER=1)); add('OP_STRUCT_LITERAL', [], dict(imm(None, None, None, None, 1, 0), NEWCONTAINER=1))
+    add('OP_UNION_CONSTRUCT', ['STR'], dict(imm(None, None, None, None, None, None, 1, 0), NEWCONTAINER=1)); add('OP_UNION_CONSTRUCT', [], dict(imm(None, None, None, None, None, None, 0, 0), NEWCONTAINER=1))
+    add('OP_UNION_TAG', ['UNION']); add('OP_UNION_TAG', ['STR']); add('OP_UNION_FIELD', ['UNION'], imm(1, 0)); add('OP_UNION_FIELD', ['UNION'], imm(0, 0)); add('OP_UNION_FIELD', ['UNION'], imm(2, 0)); add('OP_UNION_FIELD', ['TUPLE'])
+    add('OP_MATCH_TAG', ['UNION']); add('OP_MATCH_TAG', ['INT']); add('OP_ENUM_VAL')
+    add('OP_TUPLE_NEW', ['STR', 'INT'], dict(imm(2, 0), NEWCONTAINER=1)); add('OP_TUPLE_NEW', [], dict(imm(0, 0), NEWCONTAINER=1))
+    add('OP_TUPLE_GET', ['TUPLE'], imm(1, 0)); add('OP_TUPLE_GET', ['TUPLE'], imm(0, 0)); add('OP_TUPLE_GET', ['TUPLE'], imm(2, 0)); add('OP_TUPLE_GET', ['STRUCT'])
+    add('OP_HM_NEW', [], {'NEWCONTAINER': 1}); add('OP_HM_GET', ['HASHMAP', 'INT']); add('OP_HM_GET', ['INT', 'INT']); add('OP_HM_SET', ['HASHMAP', 'INT', 'STR']); add('OP_HM_SET', ['HASHMAP', 'STR', 'STR'])
+    add('OP_HM_SET', ['HASHMAP_S', 'STR', 'STR']); add('OP_HM_GET', ['HASHMAP_S', 'STR']); add('OP_HM_DELETE', ['HASHMAP_S', 'STR']); add('OP_HM_HAS', ['HASHMAP_S', 'STR']); add('OP_POP', ['HASHMAP_S'])
+    add('OP_HM_HAS', ['HASHMAP', 'INT']); add('OP_HM_DELETE', ['HASHMAP', 'INT']); add('OP_HM_KEYS', ['HASHMAP'], {'NEWCONTAINER': 1}); add('OP_HM_VALUES', ['HASHMAP'], {'NEWCONTAINER': 1}); add('OP_HM_LEN', ['HASHMAP']); add('OP_HM_LEN', ['STR'])
+    add('OP_GC_RETAIN', ['STR']); add('OP_GC_RELEASE', ['STR']); add('OP_GC_RELEASE', ['ARR_STR'])
+    for k in ('INT', 'FLOAT', 'BOOL', 'STR', 'ARR_STR'):
+        add('OP_CAST_INT', [k]); add('OP_CAST_FLOAT', [k]); add('OP_CAST_BOOL', [k]); add('OP_CAST_STRING', [k])
+    add('OP_TYPE_CHECK', ['STR']); add('OP_TYPE_CHECK', ['INT'])
+    add('OP_PRINT', ['STR']); add('OP_PRINTLN', ['ARR_STR']); add('OP_PRINT', []); add('OP_ASSERT', ['BOOL']); add('OP_ASSERT', ['STR'])
+    add('OP_OPAQUE_VALID', ['INT']); add('OP_OPAQUE_VALID', ['STR'])
+    known = opcodes()
+    covered = {t[0] for t in T}
+    missing = sorted(set(known) - covered)
+    return [t for t in T if t[0] in known], missing
+
+
+HEAVY = {('OP_ARR_REMOVE', ('ARR_STR', 'INT')), ('OP_ARR_REMOVE', ('ARR_INT', 'INT')), ('OP_CALL', ('INT',)), ('OP_CALL_INDIRECT', ('STR', 'CLOSURE')), ('OP_CALL_INDIRECT', ('CLOSURE',)), ('OP_STORE_LOCAL', ('STR',), 'ARR_STR'),
+         ('OP_ARR_SET', ('ARR_STR', 'INT', 'STR')), ('OP_ARR_SET', ('ARR_INT', 'INT', 'INT'))}
+DIVOPS = {'OP_DIV', 'OP_MOD'}
+
+# strict (== instead of >=) reference accounting is not asserted where the operation's meaning is to add a reference, or for ill-typed
+# operands the opcode does not consume (hostile bytecode only: a leak, not a safety problem)
+NO_STRICT = {('OP_GC_RETAIN', ('STR',)), ('OP_STR_FROM_INT', ('STR',)), ('OP_OPAQUE_VALID', ('STR',))}
+
+def matrix_jobs(prefix, tier, audit, group):
+    T, missing = step_table(tier)
+    jobs = []
+    for (op, slots, ex, l0, g0) in T:
+        heavy = (op, slots) in HEAVY or (op, slots, l0) in HEAVY
+        if heavy and not ex.get('IMM_FIX0') is not None and tier == 'quick' and not any(k.startswith('FIX_I') for k in ex):
+            if not (op == 'OP_STORE_LOCAL' and ex):   # the constant-slot store_local variants are cheap
+                continue
+        jobs.append(vm_job(prefix, op, slots, l0=l0, g0=g0, extra=ex, audit=audit, strict_leak=(audit and (op, slots) not in NO_STRICT), overflow=(op in DIVOPS), group=group,
+                           timeout=900 if tier == 'thorough' else 300))
+    # element stores with a concrete index (cheap: the released element's tag stays a constant)
+    for idx in (0, 1, 2, -1):
+        jobs.append(vm_job(prefix, 'OP_ARR_REMOVE', ('ARR_STR', 'INT'), extra={'FIX_I3': idx}, audit=audit, strict_leak=audit, group=group))
+        jobs.append(vm_job(prefix, 'OP_ARR_REMOVE', ('ARR_INT', 'INT'), extra={'FIX_I3': idx}, audit=audit, strict_leak=audit, group=group))
+        jobs.append(vm_job(prefix, 'OP_ARR_SET', ('ARR_STR', 'INT', 'STR'), extra={'FIX_I3': idx}, audit=audit, strict_leak=audit, group=group))
+        jobs.append(vm_job(prefix, 'OP_ARR_SET', ('ARR_INT', 'INT', 'INT'), extra={'FIX_I3': idx}, audit=audit, strict_leak=audit, group=group))
+    seen = set(); jobs = [j for j in jobs if not (j.name in seen or seen.add(j.name))]
+    return jobs, missing
